@@ -77,10 +77,11 @@ theorem eval_eq_spec_counterexample_cycle :
     (evalArith (envOf [(nx, nx)]) (.word nx)).1 = .ok 0 :=
   ⟨cycle_recursion, by decide⟩
 
-/-- Counter-example (C20-numberlike-name): `x=5; y=-x; $((y))` is -5 in bash, 0 in the code. -/
-theorem eval_eq_spec_counterexample_signed_name :
+/-- Repaired (650c7ba): `x=5; y=-x; $((y))` is -5 and `z=" x "; $((z))` is 5, as in bash. -/
+theorem pinned_signed_name :
     (specEval 100 bashMaxDepth (envOf [(nx, [53]), (ny, [45, 120])]) (.word ny)).1 = .ok (-5) ∧
-    (evalArith (envOf [(nx, [53]), (ny, [45, 120])]) (.word ny)).1 = .ok 0 := by decide
+    (evalArith (envOf [(nx, [53]), (ny, [45, 120])]) (.word ny)).1 = .ok (-5) ∧
+    (evalArith (envOf [(nx, [53]), (nz, [32, 120, 32])]) (.word nz)).1 = .ok 5 := by decide
 
 /-- Counter-example (C20-value-trailing-tokens): `y="1 2"; $((y))` is a syntax error in bash, 1 in
     the code. -/
@@ -90,10 +91,10 @@ theorem eval_eq_spec_counterexample_trailing :
 
 theorem eval_eq_spec_statement_false : ¬ eval_eq_spec_statement := by
   intro h
-  have h2 := eval_eq_spec_counterexample_signed_name
-  have h1 := h 100 (envOf [(nx, [53]), (ny, [45, 120])]) (.word ny)
-    (specEval 100 bashMaxDepth (envOf [(nx, [53]), (ny, [45, 120])]) (.word ny)).1
-    (specEval 100 bashMaxDepth (envOf [(nx, [53]), (ny, [45, 120])]) (.word ny)).2 (by decide)
+  have h2 := eval_eq_spec_counterexample_trailing
+  have h1 := h 100 (envOf [(ny, [49, 32, 50])]) (.word ny)
+    (specEval 100 bashMaxDepth (envOf [(ny, [49, 32, 50])]) (.word ny)).1
+    (specEval 100 bashMaxDepth (envOf [(ny, [49, 32, 50])]) (.word ny)).2 (by decide)
     (prod_eta _)
   rw [h2.1] at h1
   have h3 := congrArg Prod.fst (h1 trivial)
@@ -216,13 +217,12 @@ theorem no_panic (deeper : Env → Bytes → Res × Env)
     (evalWith deeper env e).1 ≠ .panic :=
   no_panic_core hd env e hwf
 
-/-- The parser produces `++x++` = `+(+(x++))` since 46beebb (C20-preinc-postinc-panic, open): it
-    evaluates where bash reports an error. -/
-theorem parser_output_preinc_postinc :
-    parseArith [.sym .addAdd, .word nx, .sym .addAdd] =
-      some (.unary .plus false (.unary .plus false (.unary .inc true (.word nx)))) ∧
-    (evalArith (envOf [(nx, [49])])
-      (.unary .plus false (.unary .plus false (.unary .inc true (.word nx))))).1 = .ok 1 := by
+/-- Repaired (9f1cf54): `++x++` is a parse error (bash fails at run time), while `--5` still is
+    `-(-5)`. -/
+theorem pinned_preinc_postinc_rejected :
+    parseArith [.sym .addAdd, .word nx, .sym .addAdd] = none ∧
+    parseArith [.sym .subSub, .word [53]] =
+      some (.unary .minus false (.unary .minus false (.word [53]))) := by
   decide
 
 /-! ## atoi_spec -/
